@@ -28,7 +28,7 @@ type renameCase struct {
 	Base     string            `json:"base"`
 	Renamed  string            `json:"renamed"`
 	Mapping  map[string]string `json:"mapping"`
-	Backend  string            `json:"backend,omitempty"` // "" = bash, "batch" = cmd.exe model
+	Backend  string            `json:"backend,omitempty"`     // "" = bash, "batch" = cmd.exe model
 	Others   map[string]string `json:"other_files,omitempty"` // imported files (the same for base and renamed; Base/Renamed are main.tsh)
 }
 
@@ -542,7 +542,6 @@ func TestC10(t *testing.T) {
 		r.FailCase(t, rep.Sig{"kind": kind, "identifier": strings.Join(cl, "+"), "backend": backend}, string(ms)+"\n"+msg+"\n--- renamed source\n"+renamed, c)
 	})
 }
-
 
 // c10MultiFile: the renaming relation on a program with imported files. An identifier of the MAIN file takes the exact
 // spelling under which a name of an imported file (or any other name) lives in the emitted script - e.g. <file prefix>_<name>
